@@ -116,6 +116,9 @@ def N_rules(ctx, rule="N"):
     n_acc = 0
     viol = 0
     for b in fb.prod_bodies():
+        rsig = fb.fns.get(b.root) or {}
+        if (rsig.get("impl_self") or "").startswith("fn_graph_builder::FnGraphBuilder") and not rsig.get("public"):
+            continue        # a private step of build(): the value is still under construction, nobody else can hold it yet
         for bb, si, s in b.stmts():
             if s["k"] != "assign":
                 continue
